@@ -192,14 +192,20 @@ inline Options parse_options(int argc, char** argv) {
 }
 
 // ---------------------------------------------------------------- replay files
+// Generator version: draws added to a generator after replay files were committed are guarded by
+// gen_version() >= N, so that older files (whose first line carries the version they were written
+// with) still decode to the case they were saved for.
+constexpr int kGenVersion = 2;
+inline int& gen_version() { static int v = kGenVersion; return v; }
 // Format (text):
-//   VFCASE 1
+//   VFCASE <generator version>
 //   prop <id>
 //   name <sub-property>
 //   draws <n> v0 v1 ...
 //   why <free text, one line>
 //   json <decoded case as one JSON line>
 struct ReplayFile {
+  int version = 1;
   std::string prop, name, why, json;
   std::vector<uint64_t> draws;
 };
@@ -207,7 +213,7 @@ inline bool write_replay(const std::string& path, const ReplayFile& r) {
   std::string tmp = path + ".tmp";
   FILE* f = fopen(tmp.c_str(), "w");
   if (!f) return false;
-  fprintf(f, "VFCASE 1\nprop %s\nname %s\ndraws %zu", r.prop.c_str(), r.name.c_str(), r.draws.size());
+  fprintf(f, "VFCASE %d\nprop %s\nname %s\ndraws %zu", kGenVersion, r.prop.c_str(), r.name.c_str(), r.draws.size());
   for (auto d : r.draws) fprintf(f, " %" PRIu64, d);
   std::string why = r.why; for (auto& c : why) if (c == '\n') c = ' ';
   fprintf(f, "\nwhy %s\njson %s\n", why.c_str(), r.json.c_str());
@@ -223,6 +229,7 @@ inline bool read_replay(const std::string& path, ReplayFile& r) {
   std::istringstream in(all);
   std::string line;
   if (!std::getline(in, line) || line.rfind("VFCASE", 0) != 0) return false;
+  r.version = atoi(line.c_str() + 6); if (r.version < 1) r.version = 1;
   while (std::getline(in, line)) {
     if (line.rfind("prop ", 0) == 0) r.prop = line.substr(5);
     else if (line.rfind("name ", 0) == 0) r.name = line.substr(5);
